@@ -181,7 +181,7 @@ def peer_open_passive(lat=1000, cid=300, peer_isn=2000, wnd=1 << 20, establish=T
     return st
 
 # ------------------------------------------------------------------ D-peer families
-LINKS = {148: 100, 300: 252, 576: 528, 1500: 528}   # link MTU -> initial MSS (IPv4)
+LINKS = {148: 100, 300: 252, 576: 528, 1500: 528, 9000: 528}   # link MTU -> initial MSS (IPv4)
 
 def rounds_acks(rng, n_rounds, lat, mss, allow_silence=True, allow_zero=True, duplex=False):
     """A random ACK/window history for a sending endpoint.  duplex: the peer also sends data of its own, and some
@@ -197,11 +197,13 @@ def rounds_acks(rng, n_rounds, lat, mss, allow_silence=True, allow_zero=True, du
         w = rng.choice(wnds)
         if duplex and rng.random() < 0.4:
             # duplex = [number of data packets the peer has sent so far]: a repeat names one of them
+            # (the peer's data packets carry its current window like any other packet - a repeat may be the first
+            #  packet to announce a smaller one)
             if rng.random() < 0.5:
-                st.append(peer("data", len=rng.choice([1, 50, mss])))
+                st.append(peer("data", len=rng.choice([1, 50, mss]), wnd=w))
                 duplex[0] += 1
             else:
-                st.append(peer("data", len=50, again=rng.randrange(0, duplex[0])))
+                st.append(peer("data", len=50, again=rng.randrange(0, duplex[0]), wnd=w))
         elif k < 0.45:
             st.append(peer("ack", wnd=w))
         elif k < 0.55:
@@ -281,6 +283,11 @@ def peer_recv(seed, idx, fam="peer_recv"):
     elif reader == "dropped":
         st.append({"op": "drop_r", "ep": "a"})
     plen = rng.choice([1, 10, mss // 2, mss, mss, mss])
+    half_closed = rng.random() < 0.2
+    if half_closed:
+        # "send the request, shut down the writing side, read the reply": the local FIN goes out (and is acknowledged by
+        # the peer's next packets) while the peer keeps sending and the reader may be slower than the peer
+        st += [{"op": "shutdown", "ep": "a"}, sleep(lat + 10)]
     for _ in range(rng.choice([5, 10, 25])):
         k = rng.random()
         if k < 0.55:
@@ -317,7 +324,7 @@ def peer_recv(seed, idx, fam="peer_recv"):
     st += [peer("fin"), sleep(300000), peer("ack"), sleep(2 * SEC), {"op": "drop", "ep": "a"}, sleep(14 * SEC)]
     return peer_script(f"{fam}/{idx}", seed * 37 + idx, st, opts=opts, lat=lat,
                        rand=[rng.randrange(65536), rng.choice([1, 65534, rng.randrange(65536)]), rng.randrange(65536)],
-                       info={"mss": mss, "rx": rx, "reader": reader, "plen": plen, "end": end})
+                       info={"mss": mss, "rx": rx, "reader": reader, "plen": plen, "end": end, "half_closed": half_closed})
 
 # ------------------------------------------------------------------ dedicated known-finding scenarios
 def kf_d4(seed=1):
@@ -919,3 +926,25 @@ def dup_syn_live_script(seed, idx, fam="sockpeer"):
 
 def sockpeer_script(seed, idx, fam="sockpeer"):
     return clash_pending_script(seed, idx, fam) if idx % 2 == 0 else dup_syn_live_script(seed, idx, fam)
+
+# ------------------------------------------------------------------ a delayed (not lost) MTU probe behind a lost segment (C01, C06)
+def probe_delay_script(seed, idx, fam="probe_delay"):
+    """Jumbo link: the first probe (several segments large) is sent once the congestion window allows it; the segment
+    in front of it is lost, the probe itself is only delayed.  The timeout collapses the window below the probe's size
+    while the probe is still on its way."""
+    rng = random.Random(seed * 1000003 + idx * 47 + 29)
+    link = rng.choice([9000, 9000, 4000])
+    lat = 50000
+    # (with these options the first probe is the 37th segment; a loss 0-3 segments in front of it and a delay of about
+    #  two retransmission timeouts make the timeout fall while the probe is on its way: those combinations come first)
+    drop_idx = [33, 34, 35, 36, 32, 37, 31, 38, 30, 39, 40, 41][idx % 12]
+    delay = [400000, 300000, 500000, 200000, 700000][(idx // 12) % 5]
+    rules = [rule(**{"from": "A", "type": "data", "seq_idx": drop_idx, "nth": 1, "act": "drop"}),
+             rule(**{"from": "A", "type": "data", "min_len": 1000, "act": "delay", "delay_us": delay, "times": 1})]
+    gen = isn_pair(rng)
+    return transfer(f"{fam}/{idx}", seed * 73 + idx, n_ab=rng.choice([60000, 200000]), chunk_w=65536, chunk_r=65536,
+                    # (a small ring: data is cut into segments as acknowledgements make room, so that a probe turn comes
+                    #  up when the congestion window has grown past the probe's size)
+                    opts_a=dict(link_mtu=link, tx_init=16384, tx_max=rng.choice([16384, 32768])), opts_b=dict(link_mtu=link),
+                    net={"latency_us": lat}, rules=rules, rand_a=[gen(), gen()], rand_b=[gen(), gen()],
+                    info={"class": "fair-lossy", "link": link, "drop_idx": drop_idx, "delay": delay})
